@@ -951,8 +951,28 @@ pub fn build_dynamic(n_ext: usize) -> d::Schema {
     b.finish().expect("dynamic harness schema")
 }
 
+/// A pass-through custom directive (`@noop` on fields): it may suspend before delegating.
+struct Noop;
+
+#[async_trait::async_trait]
+impl async_graphql::CustomDirective for Noop {
+    async fn resolve_field(&self, ctx: &Context<'_>, resolve: async_graphql::ResolveFut<'_>) -> async_graphql::ServerResult<Option<Value>> {
+        let lat = latency_for(&format!("{}#directive", path_of(ctx)));
+        if lat > 0 {
+            sim::count("probe:custom-directive-suspended");
+        }
+        sim::gate(lat).await;
+        resolve.await
+    }
+}
+
+#[async_graphql::Directive(location = "Field")]
+fn noop() -> impl async_graphql::CustomDirective {
+    Noop
+}
+
 pub fn build_static(n_ext: usize) -> StaticSchema {
-    let mut b = Schema::build(Query, Mutation, Sub);
+    let mut b = Schema::build(Query, Mutation, Sub).directive(noop);
     for i in 0..n_ext {
         b = b.extension(super::exts::RecExtFactory(i));
     }
@@ -975,7 +995,7 @@ fn _unused(_: EmptySubscription) {}
 /// Both flavours must describe the same type system (harness self-check; a mismatch is a harness error).
 pub fn check_sdl() -> std::result::Result<(), String> {
     fn norm(s: &str) -> Vec<String> {
-        let mut v: Vec<String> = s.lines().map(|l| l.trim().to_string()).filter(|l| !l.is_empty() && !l.starts_with('#') && !l.starts_with('"')).collect();
+        let mut v: Vec<String> = s.lines().map(|l| l.trim().to_string()).filter(|l| !l.is_empty() && !l.starts_with('#') && !l.starts_with('"') && !l.starts_with("directive @noop")).collect();
         v.sort();
         v
     }
